@@ -38,9 +38,11 @@ def main():
     rb = rows(b)
     for r in rb:
         out.append("| %s | %s | %s | %s | %s | %d |" % r)
+    ap = lambda rs: sum(1 for r in rs if not r[2].startswith("does"))
     n = lambda rs: sum(len(r[2].split()) for r in rs if not r[2].startswith("does"))
     al = lambda rs: sum(len(r[3].split()) for r in rs if r[3] != "-")
-    out += ["", "Round A: %d changes, %d check runs, %d alarms. Round B: %d changes, %d check runs, %d alarms." % (len(ra), n(ra), al(ra), len(rb), n(rb), al(rb))]
+    out += ["", "Round A: %d changes, %d check runs, %d alarms. Round B: %d changes, %d check runs, %d alarms." % (ap(ra), n(ra), al(ra), ap(rb), n(rb), al(rb)),
+            "Changes marked 'does not apply' were written against the base before fix 2ee6195 and touch the lines it changed."]
     open(os.path.join(VERIF, "benign", "RECHECK.md"), "w").write("\n".join(out) + "\n")
     print(out[-1])
 
